@@ -48,7 +48,11 @@ DOCUMENTED = ['SERVICE_URL', 'SERVICE_SECURE', 'LOGGING_CONF', 'POLL_TIMER', 'SE
 # docs/config/config.md: Default column
 DOC_DEFAULT = {'SERVICE_URL': {'s': 'deep:43315'}, 'SERVICE_SECURE': {'s': 'True'}, 'LOGGING_CONF': None,
                'POLL_TIMER': {'i': 10}, 'SERVICE_AUTH_PROVIDER': None}
-UNKNOWN = ['MY_KEY', 'UNKNOWN_A', 'PLUGIN_X', 'SERVICE_TIMEOUT', 'lower_key', 'APP_ROOTS']
+UNKNOWN = ['MY_KEY', 'UNKNOWN_A', 'SERVICE_TIMEOUT', 'lower_key', 'APP_ROOTS']
+BOOL_KEYS = ['SERVICE_SECURE', 'PLUGIN_X', 'PLUGIN_Y']      # read through str2bool at their use sites
+DUNDERS = ['__hash__', '__class__', '__doc__', '__module__', '__name__', '__file__', '__str__']
+TRUTHY = ('yes', 'true', 't', '1', 'y')                    # docstring of str2bool
+PXASYM = 'C19/exclude-list-in-code-without-interpreter-prefix'
 OWN = ['plugins', 'resource', '_plugins', 'is_app_frame', 'tracepoints']
 D30 = 'C19/include-string-in-code'
 BASE = f'/tmp/verif_c19_{os.getpid()}'
@@ -226,6 +230,24 @@ try:
     out['values'] = vals
     out['frames'] = frames(cfg, case['files'], base)
     out['exec_prefix'] = sys.exec_prefix
+    # use sites of the boolean settings: GRPCService.start (SERVICE_SECURE) and Plugin.is_active (PLUGIN_<NAME>)
+    try:
+        import deep.grpc.grpc_service as gsm
+        chosen = []
+        gsm.grpc.secure_channel = lambda *a, **k: chosen.append('secure')
+        gsm.grpc.insecure_channel = lambda *a, **k: chosen.append('insecure')
+        gsm.grpc.ssl_channel_credentials = lambda *a, **k: None
+        gsm.GRPCService(cfg).start()
+        out['secure'] = chosen == ['secure']
+    except Exception as e:
+        out['secure'] = {'raised': '%s: %s' % (type(e).__name__, e)}
+    from deep.api.plugin import Plugin
+    out['active'] = []
+    for n in case.get('plugin_probes', []):
+        try:
+            out['active'].append(bool(Plugin(name=n, config=cfg).is_active()))
+        except Exception as e:
+            out['active'].append({'raised': '%s: %s' % (type(e).__name__, e)})
     if case.get('timer'):
         from deep.poll.poll import LongPoll
         ticks = []
@@ -290,8 +312,10 @@ def g_prefixes(rng):
     return ps
 
 
-def g_frame(rng, d30=False):
-    """in-process: include/exclude as code lists or as environment text; APP_ROOT in code."""
+def g_frame(rng, d30=False, pxasym=False):
+    """in-process: include/exclude as code lists or as environment text; APP_ROOT in code.
+    pxasym: the separate stream of the finding candidate PXASYM — an exclude list given in code WITHOUT the interpreter
+    prefix and probe files under it (elsewhere a code-given exclude list names the prefix itself)."""
     custom, env = [], {}
     root = rng.choice(DIRS[:6] + ['/nowhere', ''] + (RAW_DIRS if rng.random() < 0.3 else []))
     custom.append(['APP_ROOT', {'s': root}])
@@ -300,36 +324,54 @@ def g_frame(rng, d30=False):
         r = rng.random()
         if d30 and (key == 'IN_APP_INCLUDE' or r < 0.5):
             custom.append([key, {'s': ','.join(ps) if ps else rng.choice(['/app', '/x,/y'])}])
-        elif r < 0.4:
-            custom.append([key, {'l': [{'s': p} for p in ps]}])
+        elif r < 0.4 or (pxasym and key == 'IN_APP_EXCLUDE'):
+            extra = ['$PX'] if key == 'IN_APP_EXCLUDE' and not pxasym else []
+            custom.append([key, {'l': [{'s': p} for p in [q for q in ps if not (pxasym and q == '$PX')] + extra]}])
         elif r < 0.85:
             if ps or rng.random() < 0.3:
                 env['DEEP_' + key] = ','.join(ps)
         # else: neither
-    return {'kind': 'frame', 'custom': custom, 'env': env, 'files': g_paths(rng, rng.choice([3, 5, 8])), 'd30': d30}
+    files = g_paths(rng, rng.choice([3, 5, 8]))
+    if pxasym:
+        custom[0] = ['APP_ROOT', {'s': rng.choice(['/', '$PX', ''])}]
+        files = files + ['$PX/lib/python3.12/site-packages/p/q.py']
+    return {'kind': 'frame', 'custom': custom, 'env': env, 'files': files, 'd30': d30, 'pxasym': pxasym}
+
+
+def g_boolish(rng):
+    """a boolean setting as people write it in code: real bools and numbers, text, None, a callable"""
+    v = rng.choice([{'b': False}, {'b': True}, {'b': False}, {'s': 'False'}, {'s': 'True'}, {'s': 'true'}, {'s': 'yes'},
+                    {'s': 'no'}, {'s': '0'}, {'s': '1'}, {'i': 0}, {'i': 1}, {'f': '1.0'}, None, {'s': ''}, {'s': 'T'}])
+    return g_callable(rng, v, may_raise=False) if rng.random() < 0.12 else v
 
 
 def g_lookup(rng):
     env, custom = {}, []
-    keys = [k for k in DOCUMENTED if k not in ('IN_APP_INCLUDE', 'IN_APP_EXCLUDE')] + ['PLUGINS'] + UNKNOWN
+    keys = [k for k in DOCUMENTED if k not in ('IN_APP_INCLUDE', 'IN_APP_EXCLUDE')] + ['PLUGINS'] + UNKNOWN + \
+        ['PLUGIN_X', 'PLUGIN_Y']
     start = rng.random() < 0.5
     for k in keys:
         r = rng.random()
         if r < 0.3:
             if k == 'POLL_TIMER':
-                env['DEEP_' + k] = rng.choice(['1', '10', '0.05', ' 2 ', '0.1', '3'])
+                env['DEEP_' + k] = rng.choice(['1', '10', '0.05', ' 2 ', '0.1', '3', '10.5', '2.'])
             elif k == 'APP_ROOT':
                 env['DEEP_' + k] = rng.choice(['/app', '/srv/x', '', '/app/src'] + RAW_DIRS)
+            elif k in BOOL_KEYS:
+                env['DEEP_' + k] = rng.choice(['False', 'True', 'true', 'false', '0', '1', 'no', 'y', 'T', '', ' false'])
             else:
                 env['DEEP_' + k] = rng.choice(TEXTS)
         r = rng.random()
         if r < 0.3:
             if k == 'POLL_TIMER':
-                v = rng.choice([{'i': 1}, {'i': 10}, {'f': '0.05'}, {'s': '0.05'}, {'s': '3'}, None,
+                v = rng.choice([{'i': 1}, {'i': 10}, {'f': '0.05'}, {'s': '0.05'}, {'s': '3'}, None, {'s': '10.5'},
+                                {'f': '2.5'}, {'b': True},
                                 g_callable(rng, {'s': '0.1'}, may_raise=False)])
             elif k == 'APP_ROOT':
                 v = rng.choice([{'s': '/app'}, {'s': '/opt/shared'}, {'s': ''}, g_callable(rng, {'s': '/app2'}, may_raise=False)] +
                                [{'s': d} for d in RAW_DIRS])
+            elif k in BOOL_KEYS:
+                v = g_boolish(rng)
             elif k == 'PLUGINS':
                 v = {'l': []}
             elif k == 'LOGGING_CONF':
@@ -341,16 +383,21 @@ def g_lookup(rng):
         ps = g_prefixes(rng)
         r = rng.random()
         if r < 0.25:
-            custom.append([key, {'l': [{'s': p} for p in ps]}])
+            # (a code-given exclude list names the interpreter prefix itself: without it see the PXASYM stream)
+            custom.append([key, {'l': [{'s': p} for p in ps + (['$PX'] if key == 'IN_APP_EXCLUDE' else [])]}])
         elif r < 0.7 and (ps or rng.random() < 0.3):
             env['DEEP_' + key] = ','.join(ps)
     if rng.random() < 0.3:
         custom.append([rng.choice(OWN), g_cval(rng)])
+    if rng.random() < 0.15:
+        custom.append([rng.choice(DUNDERS), g_cval(rng)])
     if rng.random() < 0.5:
         env['UNRELATED'] = 'x'
     rng.shuffle(custom)
-    names = list(DOCUMENTED) + ['PLUGINS'] + rng.sample(UNKNOWN, 3) + ([rng.choice(OWN)] if rng.random() < 0.4 else [])
+    names = list(DOCUMENTED) + ['PLUGINS', 'PLUGIN_X'] + rng.sample(UNKNOWN, 3) + \
+        ([rng.choice(OWN)] if rng.random() < 0.4 else []) + rng.sample(DUNDERS, 2)
     return {'kind': 'lookup', 'env': env, 'custom': custom, 'names': names, 'start': start,
+            'plugin_probes': ['X', 'Y'],
             'layout': [rng.choice(['root', 'proj']), rng.choice(['pkg', 'src'])],
             'files': g_paths(rng, 4) + rng.sample(RAW_PROBES, 3), 'timer': rng.random() < 0.35,
             'none_config': rng.random() < 0.5}
@@ -358,7 +405,8 @@ def g_lookup(rng):
 
 def g_timer(rng):
     return {'kind': 'timer', 'interval': rng.choice([{'s': '0.02'}, {'f': '0.02'}, {'s': ' 0.05 '}, {'s': '1'}, {'i': 1},
-                                                     {'s': '10'}, {'i': 10}, {'s': '5e-2'}])}
+                                                     {'s': '10'}, {'i': 10}, {'s': '5e-2'}, {'s': '10.5'}, {'f': '2.5'},
+                                                     {'b': True}, {'s': '.05'}, {'s': '+1.'}])}
 
 
 def gen(rng, tier):
@@ -371,6 +419,8 @@ def gen(rng, tier):
             yield g_timer(rng)
         elif k % 20 == 7:
             yield g_frame(rng, d30=True)
+        elif k % 50 == 13:
+            yield g_frame(rng, pxasym=True)
         else:
             yield g_frame(rng)
 
@@ -411,7 +461,11 @@ def known_replays():
     return [(D30, 'IN_APP_INCLUDE="/x,/y" given in code is iterated character by character: "/" matches every '
              'absolute path, /lib/z.py becomes an application frame',
              {'kind': 'frame', 'custom': [['APP_ROOT', {'s': '/app'}], ['IN_APP_INCLUDE', {'s': '/x,/y'}]], 'env': {},
-              'files': ['/lib/z.py'], 'd30': True})]
+              'files': ['/lib/z.py'], 'd30': True}),
+            (PXASYM, 'IN_APP_EXCLUDE=["/opt"] given in code is used as given, DEEP_IN_APP_EXCLUDE=/opt gets the interpreter '
+             'prefix appended: a site-packages file under the app root is an application frame only on the code route',
+             {'kind': 'frame', 'custom': [['APP_ROOT', {'s': '/'}], ['IN_APP_EXCLUDE', {'l': [{'s': '/opt'}]}]], 'env': {},
+              'files': ['$PX/lib/python3.12/site-packages/p/q.py'], 'd30': False, 'pxasym': True})]
 
 
 def has_str_list_key(case):
@@ -419,9 +473,16 @@ def has_str_list_key(case):
                for k, v in case.get('custom', []))
 
 
+def code_exclude_without_px(case):
+    return any(k == 'IN_APP_EXCLUDE' and isinstance(v, dict) and 'l' in v and {'s': '$PX'} not in v['l']
+               for k, v in case.get('custom', []))
+
+
 def known_finding(case, obs):
     if case['kind'] in ('frame', 'lookup') and has_str_list_key(case):
         return D30
+    if case['kind'] == 'frame' and case.get('pxasym') and code_exclude_without_px(case):
+        return PXASYM
     return None
 
 
@@ -529,10 +590,12 @@ def ref_lists(custom, env, px):
         if isinstance(v, dict) and 'call' in v:
             v = v['call']
         if v is not None:
+            # the same prefixes whichever way they are given; the interpreter prefix is always excluded
+            extra = [px] if key == 'IN_APP_EXCLUDE' else []
             if 'l' in v:
-                out.append([x['s'] for x in v['l']])
+                out.append([x['s'] for x in v['l']] + extra)
             elif 's' in v:
-                out.append(doc_list(v['s']))        # documented: a string of comma separated values
+                out.append(doc_list(v['s']) + extra)        # documented: a string of comma separated values
             else:
                 out.append(None)
         else:
@@ -614,8 +677,11 @@ def ref_lookup(case, name, px):
     for k, v in case['custom']:
         custom[k] = json.loads(px_sub(json.dumps(v), px))
     env = {k: px_sub(v, px) for k, v in case['env'].items()}
-    if name in OWN:
-        return 'own'
+    if name in ('__name__', '__file__'):
+        # not attributes of the object but of the deep.config module: a code value still wins, else the module's
+        return called(custom[name]) if custom.get(name) is not None else 'own'
+    if name in OWN or name in DUNDERS:
+        return 'own'         # attributes every object has / of this object: not settings
     if name == 'APP_ROOT' and case['start']:
         if 'APP_ROOT' in custom:
             if custom['APP_ROOT'] is not None:
@@ -643,9 +709,28 @@ def ref_lookup(case, name, px):
     return None
 
 
+def py_text(v):
+    """str(value) for the values whose text is plain; None = not judged (lists, foreign objects, failures)"""
+    if v is None:
+        return 'None'
+    if 's' in v:
+        return v['s']
+    if 'b' in v:
+        return str(bool(v['b']))
+    if 'i' in v:
+        return str(v['i'])
+    if 'f' in v:
+        return repr(float(v['f']))
+    if 'l' in v or 'o' in v:
+        return '<not a truthy text>'
+    return None
+
+
 def interval_of(v):
     if v is None:
         return None
+    if 'b' in v:
+        return float(v['b'])
     if 'i' in v:
         return float(v['i'])
     if 'f' in v:
@@ -685,6 +770,26 @@ def oracle_lookup(case, obs):
     if isinstance(root, dict) and 's' in root:
         check_frames(custom, env, px, root['s'], [px_sub(f, px) for f in case['files']],
                      obs['frames'], v)
+    # boolean settings at their use sites: the value is read like its text, whichever way it was given
+    def expect_bool(name, absent):
+        rv = ref_lookup(case, name, px)
+        if rv is None:
+            return absent
+        t = py_text(rv)
+        return None if t is None else (t.lower() in TRUTHY)
+    if 'secure' in obs:
+        e = expect_bool('SERVICE_SECURE', False)
+        if isinstance(obs['secure'], dict):
+            v.append(f'GRPCService.start raised with SERVICE_SECURE={ref_lookup(case, "SERVICE_SECURE", px)}: '
+                     + obs['secure']['raised'])
+        elif e is not None and obs['secure'] != e:
+            v.append(f'SERVICE_SECURE={ref_lookup(case, "SERVICE_SECURE", px)}: secure channel {obs["secure"]}, expected {e}')
+    for n, a in zip(case.get('plugin_probes', []), obs.get('active', [])):
+        e = expect_bool('PLUGIN_' + n, True)
+        if isinstance(a, dict):
+            v.append(f'Plugin.is_active raised with PLUGIN_{n}={ref_lookup(case, "PLUGIN_" + n, px)}: ' + a['raised'])
+        elif e is not None and a != e:
+            v.append(f'PLUGIN_{n}={ref_lookup(case, "PLUGIN_" + n, px)}: active {a}, expected {e}')
     if case.get('timer'):
         t = obs.get('timer', {})
         iv = interval_of(ref_lookup(case, 'POLL_TIMER', px))
@@ -723,19 +828,36 @@ def pairs(d):
     return [[k, v] for k, v in d.items()]
 
 
+DECIMAL = __import__('re').compile(r'^[ \t]*[+-]?(\d+(\.\d*)?|\.\d+)[ \t]*$')
+
+
+def modelled_number(v):
+    if v is None:
+        return False
+    if 'i' in v or 'b' in v:
+        return True
+    t = v.get('s', v.get('f'))
+    return isinstance(t, str) and bool(DECIMAL.match(t))
+
+
+def modelled_text(v):
+    """values whose str() the model knows"""
+    return v is None or (isinstance(v, dict) and any(k in v for k in ('s', 'i', 'b', 'f')))
+
+
+def dec_value(d):
+    return None if d is None else d['mant'] / (10 ** d['scale'])
+
+
 def model_request(case, obs):
     k = case['kind']
     if 'raised' in obs and k != 'timer':
         return None
     if k == 'timer':
         v = case['interval']
-        if 's' in v or 'i' in v:
-            try:
-                int(v.get('s', '0'))
-            except ValueError:
-                return None     # only integer texts are inside the modelled float() alphabet
-            return {'kind': 'interval', 'custom': [['POLL_TIMER', v]], 'env': [], 'px': '/px'}
-        return None
+        if not modelled_number(v):
+            return None     # exponents, inf/nan: outside the modelled float() alphabet
+        return {'kind': 'interval', 'custom': [['POLL_TIMER', v]], 'env': [], 'px': '/px'}
     px = obs['exec_prefix']
     custom = {}
     for kk, v in case['custom']:
@@ -743,7 +865,8 @@ def model_request(case, obs):
     req = {'kind': 'frame', 'custom': pairs(custom), 'env': pairs({a: px_sub(b, px) for a, b in case['env'].items()}),
            'px': px, 'files': [px_sub(f, px) for f in case['files']]}
     if k == 'lookup':
-        req.update(kind='lookup', names=case['names'], start=case['start'], calc=BASE + '/' + case['layout'][0])
+        req.update(kind='lookup', names=case['names'], start=case['start'], calc=BASE + '/' + case['layout'][0],
+                   plugin_probes=case.get('plugin_probes', []))
     return req
 
 
@@ -753,21 +876,40 @@ def compare(case, obs, resp):
     k = case['kind']
     d = []
     if k == 'timer':
-        alive = resp['interval'] is not None and resp['interval'] > 0
+        iv = dec_value(resp['interval'])
+        alive = iv is not None and iv > 0
         if alive != obs.get('alive', False):
             d.append(f'timer alive: model {alive} vs implementation {obs}')
-        elif alive and float(obs['interval']) != float(resp['interval']):
-            d.append(f'interval: model {resp["interval"]} vs implementation {obs["interval"]}')
+        elif alive and float(obs['interval']) != iv:
+            d.append(f'interval: model {iv} vs implementation {obs["interval"]}')
         return d
     if k == 'lookup':
         for n, m, o in zip(case['names'], resp['values'], obs['values']):
-            if isinstance(m, dict) and str(m.get('o', '')).startswith('own attribute'):
+            if isinstance(m, dict) and str(m.get('o', '')).startswith(('own attribute', 'module attribute')):
                 continue        # the object's own attribute: its value is outside the model (it is not the custom one:
                                 # checked by the oracle for names of OWN)
             if m == {'o': 'raises'}:
                 m = {'raised': 'ValueError'}
             if norm(m) != norm(o):
                 d.append(f'{n}: model {m} vs implementation {o}')
+    if k == 'lookup':
+        px = obs['exec_prefix']
+        if 'secure' in obs and modelled_text(ref_lookup(case, 'SERVICE_SECURE', px)):
+            o = None if isinstance(obs['secure'], dict) else obs['secure']
+            if resp['secure'] != o:
+                d.append(f'secure: model {resp["secure"]} vs implementation {obs["secure"]}')
+        for n, m, o in zip(case.get('plugin_probes', []), resp.get('active', []), obs.get('active', [])):
+            if modelled_text(ref_lookup(case, 'PLUGIN_' + n, px)):
+                o = None if isinstance(o, dict) else o
+                if m != o:
+                    d.append(f'PLUGIN_{n} active: model {m} vs implementation {o}')
+        t = obs.get('timer')
+        if case.get('timer') and t and 'raised' not in t and modelled_number(ref_lookup(case, 'POLL_TIMER', px)):
+            iv = dec_value(resp.get('interval'))
+            if (iv is not None and iv > 0) != bool(t.get('alive')):
+                d.append(f'poll timer alive: model interval {iv} vs implementation {t}')
+            elif t.get('alive') and float(t['interval']) != iv:
+                d.append(f'poll interval: model {iv} vs implementation {t["interval"]}')
     for f, m, o in zip(case['files'], resp['frames'], obs['frames']):
         if 'raised' in m or 'raised' in o:
             if ('raised' in m) != ('raised' in o):
